@@ -302,6 +302,7 @@ struct Oracle<'a> {
     n_events: u64,
     n_events_suppressed: u64,
     n_headers: HashMap<&'static str, u64>,
+    n_reused: HashMap<&'static str, u64>,
     n_remote: u64,
     n_handoffs: u64,
     n_groups_interleaved: u64,
@@ -416,6 +417,7 @@ impl<'a> Oracle<'a> {
             n_events: 0,
             n_events_suppressed: 0,
             n_headers: HashMap::new(),
+            n_reused: HashMap::new(),
             n_remote: 0,
             n_handoffs: 0,
             n_groups_interleaved: 0,
@@ -601,24 +603,14 @@ impl<'a> Oracle<'a> {
                     format!("node {} starts a new trace but its current traceparent is {}", node.id, got.show()),
                 );
             }
-            // nothing is inherited from an invalid header: not its (lone) trace id, not its parent id
-            if (outer.trace.is_some() && got.trace == outer.trace) || (outer.span.is_some() && got.span == outer.span) {
-                // one compact signature per header shape (no node kind / runtime in it)
-                self.found.push((
-                    format!(
-                        "C18:new-trace-inherits-ids-from-invalid-header:{}:flag-{}",
-                        if outer.trace.is_some() { "trace-id-of-a-zero-parent-id-header" } else { "parent-id-of-a-zero-trace-id-header" },
-                        if outer.sampled() { "01" } else { "00" }
-                    ),
-                    format!(
-                        "node {} ({}) starts a new trace under the invalid header {} but its current traceparent is {}",
-                        node.id,
-                        where_,
-                        outer.show(),
-                        got.show()
-                    ),
-                ));
-                self.no_env_suffix.insert(self.found.len() - 1);
+            if outer.trace.is_some() && got.trace == outer.trace {
+                // Not judged: the statement does not say which trace id a new trace gets (observed on
+                // the unchanged tree: a sampled header with a non-zero trace id and an all-zero parent
+                // id hands its trace id to the new root). Counted for the evidence only.
+                *self
+                    .n_reused
+                    .entry(if outer.sampled() { "new-trace-reuses-trace-id-of-invalid-header:flag-01" } else { "new-trace-reuses-trace-id-of-invalid-header:flag-00" })
+                    .or_default() += 1;
             }
             if let Some(s) = got.span {
                 self.roles.insert(s, (node.id, Role::NewTrace, via));
@@ -1088,6 +1080,9 @@ fn eval<X: Env>(r: &mut Report, in_sampled: bool, seed: u64, index: u64, tree: &
     r.observe("events-suppressed-by-sampled-trace-filter", o.n_events_suppressed);
     for (k, v) in &o.n_headers {
         r.observe(&format!("pushed:{}", k), *v);
+    }
+    for (k, v) in &o.n_reused {
+        r.observe(k, *v);
     }
     r.observe("remote-hops", o.n_remote);
     r.observe("panics-unwound-and-caught", o.n_panics_caught);
